@@ -37,10 +37,12 @@ ASSUMPTIONS = [
 ]
 RULE = ("component histories: 2-4 train calls over 2-3 generated datasets with shifted user/item id ranges and different sizes, both retrain "
         "settings, explicit seeds, every shipped trainable component that can be trained here (17 kinds, several configurations each) plus the "
-        "standard top-N / prediction pipelines and pipelines of instrumented components under every kind of options.rng; probe list = all users "
+        "standard top-N / prediction pipelines, pipelines of instrumented components under every kind of options.rng (recording the seed handed over AND the "
+        "first draws of the generator obtained from options.random_generator(), against the positional children of the supplied seed), and seeded "
+        "pipelines holding two or three real stochastic scorers (each against the same component trained alone with its child seed); probe list = all users "
         "and items of all datasets of the history plus unseen ones, with and without a supplied user history.  non-trivial = at least two "
         "effective trainings on datasets with different item or user vocabularies, or a skipped call after a training; for instrumented pipelines: "
-        "at least two trainable nodes and a supplied seed; distinct = by hash of the case")
+        "at least two trainable nodes and a supplied seed; for scorer pairs: two equal stochastic scorers in one pipeline; distinct = by hash of the case")
 
 _frames = None
 
@@ -138,6 +140,21 @@ def gen_instr_case(rng):
             "options_none": rng.chance(1, 8)}
 
 
+STOCHASTIC = ["als", "ials", "funk", "flexe", "flexi", "svd"]
+
+
+def gen_pair_case(rng):
+    n = rng.randint(2, 3)
+    first = rng.choice(STOCHASTIC)
+    cfg = L.gen_config(rng, first)
+    members = [{"kind": first, "cfg": cfg}, {"kind": first, "cfg": cfg}]          # two equal stochastic scorers ...
+    if n == 3:
+        k = rng.choice(STOCHASTIC)
+        members.insert(rng.below(3), {"kind": k, "cfg": L.gen_config(rng, k)})   # ... and possibly a third one
+    return {"type": "pair", "members": members, "dataset": L.gen_dataset(rng, 0), "seed": rng.randint(1, 10**6),
+            "seed_kind": rng.choice(["int", "int", "seedseq", "intlist"]), "deterministic_between": rng.chance(1, 2)}
+
+
 def gen_cases(rng, tier):
     mult = 1 if tier == "quick" else 16
     out = []
@@ -150,6 +167,8 @@ def gen_cases(rng, tier):
         out.append(gen_pipe_case(rng.fork(("pipe", j))))
     for j in range(80 * mult):
         out.append(gen_instr_case(rng.fork(("instr", j))))
+    for j in range(24 * mult):
+        out.append(gen_pair_case(rng.fork(("pair", j))))
     return out
 
 
@@ -294,8 +313,12 @@ def run_instr(case):
         label = "?"
 
         def train(self, data, options=TrainingOptions()):
-            log.append({"name": self.label, "retrain": bool(options.retrain), "rng": _describe_rng(options.rng, holder.get("rng")),
-                        "data_same": data is holder["data"], "options_same": options is holder.get("options")})
+            r = options.rng
+            use = None
+            if isinstance(r, np.random.SeedSequence):     # the generator this component actually obtains from its options
+                use = [int(x) for x in options.random_generator().integers(0, 2**62, 3)]
+            log.append({"name": self.label, "retrain": bool(options.retrain), "rng": _describe_rng(r, holder.get("rng")),
+                        "data_same": data is holder["data"], "options_same": options is holder.get("options"), "use": use})
 
         def __call__(self) -> int:
             return 2
@@ -336,7 +359,15 @@ def run_instr(case):
             opts = TrainingOptions(retrain=case["retrain"], rng=given)
             holder["options"] = opts
             pipe.train(ds, opts)
-        rounds.append({"spawned_before": sb, "calls": list(log)})
+        # reference: the generators of the positional children of the supplied seed
+        ref = []
+        if kind in ("int", "npint", "intlist", "seedseq", "seedseq-spawned"):
+            root = np.random.SeedSequence(given) if kind in ("int", "npint", "intlist") else np.random.SeedSequence(seed)
+            start = sb if kind in ("seedseq", "seedseq-spawned") else 0
+            for j in range(len(log)):
+                child = np.random.SeedSequence(root.entropy, spawn_key=(start + j,))
+                ref.append([int(x) for x in np.random.default_rng(child).integers(0, 2**62, 3)])
+        rounds.append({"spawned_before": sb, "calls": list(log), "use_ref": ref})
     base = None
     if kind in ("int", "npint", "intlist"):
         ent = np.random.SeedSequence(given).entropy
@@ -346,8 +377,48 @@ def run_instr(case):
     return {"rounds": rounds, "base": base}
 
 
+def run_pair(case):
+    """Several stochastic scorers in ONE seeded pipeline: each must be trained from its own child of the seed, i.e. be
+    equal to the same component trained alone with SeedSequence(seed).spawn(..)[k], and equal scorers must come out different."""
+    L.setup()
+    import numpy as np
+    from lenskit.pipeline import PipelineBuilder
+    from lenskit.training import TrainingOptions
+
+    ds = L.dataset(case["dataset"])
+
+    def given():
+        s = case["seed"]
+        return s if case["seed_kind"] == "int" else (np.random.SeedSequence(s) if case["seed_kind"] == "seedseq" else [s, 3])
+    b = PipelineBuilder()
+    comps = []
+    if case["deterministic_between"]:
+        b.add_component("bias0", L.make("bias", {"damping": 2}))     # a trainable, non-stochastic node shifts the positions
+    for j, m in enumerate(case["members"]):
+        c = L.make(m["kind"], m["cfg"])
+        comps.append(c)
+        b.add_component(f"s{j}", c)
+    pipe = b.build()
+    try:
+        pipe.train(ds, TrainingOptions(rng=given()))
+    except (KeyError, ValueError, RuntimeError) as e:
+        return {"error": type(e).__name__}
+    root = np.random.SeedSequence(given()) if case["seed_kind"] != "seedseq" else np.random.SeedSequence(case["seed"])
+    off = 1 if case["deterministic_between"] else 0
+    members = []
+    for j, (m, c) in enumerate(zip(case["members"], comps)):
+        alone = L.make(m["kind"], m["cfg"])
+        alone.train(ds, TrainingOptions(rng=np.random.SeedSequence(root.entropy, spawn_key=(off + j,))))
+        members.append({"kind": m["kind"], "position": off + j,
+                        "in_pipeline": {k: v for k, v in L.store_of(c).items() if not k.startswith("_")},
+                        "alone_child": {k: v for k, v in L.store_of(alone).items() if not k.startswith("_")}})
+    same = [[a, b2] for a in range(len(members)) for b2 in range(a + 1, len(members))
+            if case["members"][a] == case["members"][b2]]
+    return {"members": members, "same_config_pairs": same}
+
+
 def run_impl(case):
-    return {"comp": run_comp, "pipe": run_pipe, "instr": run_instr}[case["type"]](case)
+    return {"comp": run_comp, "pipe": run_pipe, "instr": run_instr, "pair": run_pair}[case["type"]](case)
 
 
 # ---------------------------------------------------------------------------------------------
@@ -383,7 +454,23 @@ def c_call(c, base):
     return f"(mkCall {cstr(c['name'])} {cbool(c['retrain'])} {rq})"
 
 
+def _dz(x) -> int:
+    return int.from_bytes(hashlib.sha256(repr(x).encode()).digest()[:7], "big")
+
+
+def term_pair(case, obs):
+    terms = ["options_rng_passthrough"]
+    for m in obs["members"]:
+        terms.append(f"zlist_eqb {clist([v for _, v in sorted(m['in_pipeline'].items())], cz)} {clist([v for _, v in sorted(m['alone_child'].items())], cz)}")
+    for a, b in obs["same_config_pairs"]:
+        x, y = obs["members"][a]["in_pipeline"], obs["members"][b]["in_pipeline"]
+        terms.append(f"negb (zlist_eqb {clist([v for _, v in sorted(x.items())], cz)} {clist([v for _, v in sorted(y.items())], cz)})")
+    return " && ".join(f"({t})" for t in terms)
+
+
 def coq_term(case, obs):
+    if case["type"] == "pair":
+        return None if obs.get("error") else term_pair(case, obs)
     if case["type"] == "comp":
         steps = [(s["fresh"], st["retrain"], s["store"]) for s, st in zip(obs["steps"], case["steps"]) if "error" not in s]
         if any(s[0] is None for s in steps):
@@ -407,6 +494,9 @@ def coq_term(case, obs):
     for r in obs["rounds"]:
         calls = clist(r["calls"], lambda c: c_call(c, obs["base"]))
         terms.append(f"(agree_pipeline pt_seed_plan pt_spawn_width {RNG_KIND_COQ[case['rng']]} {cbool(retrain)} {cnat(r['spawned_before'])} {ns} {calls})")
+        if obs["base"] is not None:
+            got = [_dz(c["use"]) for c in r["calls"]]
+            terms.append(f"(agree_use options_rng_passthrough {clist(got, cz)} {clist([_dz(x) for x in r['use_ref']], cz)})")
     return " && ".join(terms)
 
 
@@ -450,7 +540,26 @@ def oracle_history(tag, steps_obs, steps, stores_key="store", fresh_key="fresh")
     return v
 
 
+def oracle_pair(case, obs):
+    v = []
+    if obs.get("error"):
+        return v
+    for j, m in enumerate(obs["members"]):
+        if m["in_pipeline"] != m["alone_child"]:
+            bad = sorted(k for k in m["in_pipeline"] if m["in_pipeline"][k] != m["alone_child"].get(k))
+            v.append((f"pipeline-component-not-child-seed:{m['kind']}",
+                      f"node s{j} ({m['kind']}) trained in a pipeline with seed {case['seed']} ({case['seed_kind']}) differs in {bad} from the same component "
+                      f"trained alone with child {m['position']} of that seed"))
+    for a, b in obs["same_config_pairs"]:
+        if obs["members"][a]["in_pipeline"] == obs["members"][b]["in_pipeline"]:
+            v.append((f"pipeline-components-same-stream:{obs['members'][a]['kind']}",
+                      f"nodes s{a} and s{b} (equal {obs['members'][a]['kind']} scorers) of one seeded pipeline have identical parameters: they were trained from the same random stream"))
+    return v
+
+
 def oracle(case, obs):
+    if case["type"] == "pair":
+        return oracle_pair(case, obs)
     if case["type"] == "comp":
         v = oracle_history(case["kind"], obs["steps"], case["steps"])
     elif case["type"] == "pipe":
@@ -473,6 +582,12 @@ def oracle(case, obs):
                     v.append(("pipeline-seeds-not-distinct", f"two components received the same seed: {seeds}"))
                 if not all(c["rng"][0] == "spawn" and c["rng"][1] == obs["base"] for c in r["calls"]):
                     v.append(("pipeline-seed-not-derived", "a component's seed is not a child of the supplied seed"))
+                uses = [tuple(c["use"] or ()) for c in r["calls"]]
+                if len(set(uses)) != len(uses):
+                    v.append(("pipeline-generators-not-distinct", f"options.random_generator() gave two components of one seeded pipeline the same stream: {uses}"))
+                if uses != [tuple(x) for x in r["use_ref"]]:
+                    v.append(("pipeline-generator-not-positional-child", "the generator a component obtains from its options is not the generator of its "
+                              f"positional child of the supplied seed (rng kind {case['rng']}, seed {case['seed']})"))
             else:
                 if not all(c["rng"][0] == "same" for c in r["calls"]):
                     v.append(("pipeline-rng-replaced", "without a seed the caller's generator must be handed on unchanged"))
@@ -492,6 +607,8 @@ def _vocab(spec):
 
 
 def nontrivial(case, obs):
+    if case["type"] == "pair":
+        return not obs.get("error") and bool(obs["same_config_pairs"])
     if case["type"] == "instr":
         return sum(1 for n in case["nodes"] if n["trainable"]) >= 2 and obs["base"] is not None
     eff, effs, skipped = None, [], False
@@ -509,6 +626,12 @@ def nontrivial(case, obs):
 
 def counters(case, obs):
     yield "type=" + case["type"]
+    if case["type"] == "pair":
+        yield "pair=" + "+".join(m["kind"] for m in case["members"]) + ("/bias-first" if case["deterministic_between"] else "")
+        yield "pair-seed=" + case["seed_kind"]
+        if obs.get("error"):
+            yield "train-error=" + obs["error"]
+        return
     if case["type"] == "instr":
         yield "rng=" + case["rng"]
         yield f"trainable-nodes={min(4, sum(1 for n in case['nodes'] if n['trainable']))}"
@@ -544,6 +667,8 @@ def counters(case, obs):
 
 
 def sample(case, obs):
+    if case["type"] == "pair":
+        return {"case": {k: v for k, v in case.items() if k != "dataset"}, "observation": obs}
     if case["type"] == "instr":
         return {"case": case, "observation": obs}
     small = {k: v for k, v in case.items() if k != "datasets"}
@@ -552,6 +677,8 @@ def sample(case, obs):
 
 
 def shrink(case, fails):
+    if case["type"] == "pair":
+        return case
     if case["type"] == "instr":
         c = dict(case)
         c["nodes"] = common.shrink_list(case["nodes"], lambda xs: bool(xs) and fails({**c, "nodes": xs}), 20)
